@@ -2014,6 +2014,23 @@ class _Quantifiers(ast.NodeTransformer):
     visit_FunctionDef = _scope
     visit_AsyncFunctionDef = _scope
 
+    def visit_Expr(self, node):
+        """setattr(obj, 'name', v) is obj.name = v."""
+        self.generic_visit(node)
+        v = node.value
+        if isinstance(v, ast.Call) and isinstance(v.func, ast.Name) and \
+                v.func.id == 'setattr' and len(v.args) == 3 and \
+                not v.keywords and isinstance(v.args[1], ast.Constant) and \
+                isinstance(v.args[1].value, str) and \
+                v.args[1].value.isidentifier():
+            self.count += 1
+            return ast.copy_location(ast.Assign(
+                targets=[ast.Attribute(value=v.args[0],
+                                       attr=v.args[1].value,
+                                       ctx=ast.Store())],
+                value=v.args[2], lineno=node.lineno), node)
+        return node
+
     def visit_Assign(self, node):
         """`first, *_ = xs` is `first = xs[0]`; `*_, last = xs` is
         `last = xs[-1]` (the starred name never read)."""
@@ -2097,6 +2114,16 @@ class _Quantifiers(ast.NodeTransformer):
     def visit_Call(self, node):
         self.generic_visit(node)
         f = node.func
+        if isinstance(f, ast.Name) and f.id == 'getattr' and \
+                len(node.args) == 2 and not node.keywords and \
+                isinstance(node.args[1], ast.Constant) and \
+                isinstance(node.args[1].value, str) and \
+                node.args[1].value.isidentifier():
+            # getattr(obj, 'name') is obj.name
+            self.count += 1
+            return ast.copy_location(ast.Attribute(
+                value=node.args[0], attr=node.args[1].value,
+                ctx=ast.Load()), node)
         g = _getter(node)
         if g is not None:
             # itemgetter('k') / attrgetter('a') written in place: the
